@@ -162,7 +162,7 @@ var checks = []Check{
 	},
 	{
 		ID: "C08", Pkg: "checks/c08", Instr: coreInstr,
-		QuickRuns: 20000, ThoroughRuns: 1000000, QuickBudgetS: 60, ThoroughBudgetS: 1500, ShrinkS: 60,
+		QuickRuns: 20000, ThoroughRuns: 1000000, QuickBudgetS: 100, ThoroughBudgetS: 1500, ShrinkS: 60,
 		Rule: "one run = the generated Raft KV system of systems/raftkvs/raftkvs.go in the spec world: 1-5 servers x 5 archetypes, 1-3 clients issuing 1-6 Put/Get operations each (unique Put values, 1-2 keys), optionally the spec's crashers for a minority (ExploreFail), network buffer 2-6, per-link FIFO delivery with any interleaving of links, every LeaderTimeout/ClientTimeout/UnreliableFD read a biased stream coin, the stream picks which archetype takes its next label with per-server speed classes redrawn in phases; a quarter of the runs that neither flap nor hunt are calm (timers fire as in a healthy deployment: rarely unless there is no leader; twice the step budget), every run ends with a final-read phase (faults stop, in half of the 3+ server runs the leader is first cut off until another one leads, then one Get per key); a third of the runs with 3+ servers flap leaders (one favoured candidate per phase, the previous one cut off: its messages delayed in both directions), half of the other 3-server runs and a quarter of the 4-5 server runs hunt a stale leader (state-aware adversary: cut off a leader holding an entry nobody else has, let a second leader append, cut that one off, let the first back in, then the second); after every committed step the spec's ElectionSafety, LogMatching, LeaderCompleteness, StateMachineSafety, ApplyLogOK and (against the previous state) LeaderAppendOnly are evaluated, plus terms and commit indices never decrease and no assertion fails; non-trivial = at least 50 spec steps and 2 servers; distinct = distinct interleaving digests",
 		Real: realA, Stub: stubA,
 		Assumptions: []string{"invariants are transcribed from raftkvs.tla into Go predicates (C02 checks the steps against the spec itself)", "level B (bootstrap over the simulated network) is not part of this check yet"},
@@ -170,7 +170,7 @@ var checks = []Check{
 	},
 	{
 		ID: "C09", Pkg: "checks/c09", Instr: append(append([]string{}, coreInstr...), "systems/raftkvs", "systems/raftkvs/bootstrap"), Env: []string{"VERIF_C09_LEVELB=1"},
-		QuickRuns: 20000, ThoroughRuns: 1000000, QuickBudgetS: 60, ThoroughBudgetS: 1500, ShrinkS: 60,
+		QuickRuns: 20000, ThoroughRuns: 1000000, QuickBudgetS: 100, ThoroughBudgetS: 1500, ShrinkS: 60,
 		Rule: "eleven runs in twelve = the same level-A Raft execution as C08 (with an adaptive workload: after a leader change following an acknowledged Put the next request is usually a Get of that key; calm runs and the final-read phase make lost acknowledged writes visible); one run in twelve = level B: the shipped bootstrap of systems/raftkvs (bootstrap.NewServer/NewClient with the real relaxed mailboxes, monitors, failure detectors, election timer, CustomInChan, LocalShared variables, in a third of those runs PersistentLog/MakePersistent on an in-memory badger store) for 1/3/5 servers and 1-3 clients under the simulator's scheduler, clock and network, clients going through the real bootstrap.Client.Run (request time-outs and re-sends included), 0-2 windows in which one server is cut off from the network and optionally one server stopped; in both levels the history of client operations (invoke/return stamped with event sequence numbers; unanswered Puts pending for ever, unanswered Gets dropped) is checked with porcupine against a key-value map partitioned by key; non-trivial = at least 2 answered operations; distinct = distinct interleaving digests",
 		Real: append(append([]string{}, realA...), "level B runs: systems/raftkvs/bootstrap (server.go, client.go, helper.go), raftkvs timer.go, customch.go, persistentlog.go, distsys/resources relaxed mailboxes, Monitor, SingleFailureDetector, LocalSharedManager, Persistent — real, instrumented by overlay"),
 		Stub: append(append([]string{}, stubA...), stubU...),
